@@ -150,6 +150,7 @@ fn main() {
             let mut runs = 10usize;
             let mut out = String::new();
             let mut thorough = false;
+            let (mut shard, mut nshards) = (0usize, 0usize);
             let mut i = 2;
             while i + 1 < args.len() {
                 match args[i].as_str() {
@@ -157,11 +158,16 @@ fn main() {
                     "--runs" => runs = args[i + 1].parse().unwrap(),
                     "--out" => out = args[i + 1].clone(),
                     "--tier" => thorough = args[i + 1] == "thorough",
+                    "--shard" => {
+                        let mut it = args[i + 1].split('/');
+                        shard = it.next().and_then(|x| x.parse().ok()).unwrap_or(0);
+                        nshards = it.next().and_then(|x| x.parse().ok()).unwrap_or(0);
+                    }
                     _ => usage(),
                 }
                 i += 2;
             }
-            c07::child(seed, runs, &out, thorough);
+            c07::child(seed, runs, &out, thorough, shard, nshards);
             run::cleanup_scratch();
         }
         "c07-stress" | "c07-miri" => {
